@@ -156,7 +156,7 @@ func runKillScenario(seed uint64, size int, out io.Writer) (crashed bool) {
 	if err := cmd.Start(); err != nil {
 		return true
 	}
-	target := 1 + r.Intn(size)    // kill after this many completed operations ...
+	target := 1 + r.Intn(size)                              // kill after this many completed operations ...
 	extra := time.Duration(r.Intn(1500)) * time.Microsecond // ... plus a little, to land inside the next one
 	lines := make(chan string, 4096)
 	go func() {
